@@ -15,6 +15,8 @@ evaluated. The record is compared with the statement of C05:
 
 from __future__ import annotations
 
+import ast
+
 import itertools
 
 from geolint import absint
@@ -237,14 +239,19 @@ def rule_E14(run: Run, prog: Program) -> int:
     samples_: list[str] = []
     n_err = 0
     n_ok = 0
-    for types, edges in diagrams(run.tier == "thorough"):
+    # code gated on the number of entries of an operand (a fast path for large tensors) is interpreted for both answers
+    region = [f_ for f_ in prog.functions.values() if f_.cls is dcls]
+    size_gated = any(isinstance(x, ast.Attribute) and x.attr in ("size", "nbytes") for f_ in region for x in ast.walk(f_.node))
+    run.stats["diagram_size_gated"] = size_gated
+    for large, types, edges in [(lg, t_, e_) for lg in ([False, True] if size_gated else [False]) for t_, e_ in diagrams(run.tier == "thorough")]:
+        absint._SIZE_MODE["large"] = large
         for mixed in (False, True):
             if mixed and not any(t[1] and t[2] for t in types):
                 continue
             n += 1
             objs = [make_node(t, tcls, mixed, idx=k_) for k_, t in enumerate(types)]
             exp = expected(objs, list(edges), objs)
-            desc = f"nodes {list(types)}{' (contravariant index stored first)' if mixed else ''}, edges {list(edges)}"
+            desc = f"nodes {list(types)}{' (contravariant index stored first)' if mixed else ''}, edges {list(edges)}{' [operands with many entries]' if large else ''}"
             try:
                 captured, _me = run_diagram(prog, dcls, tcls, objs, list(edges))
                 got_err = None
@@ -279,6 +286,7 @@ def rule_E14(run: Run, prog: Program) -> int:
                         "edge from a node to itself as the first mention of that node" if first_mention_loop else
                         "edge from a node to itself" if any(a == b for a, b in edges) else ("three nodes" if len(types) == 3 else "two nodes"))
                 wrong.setdefault(kind, []).append(f"{desc}: {diff}")
+    absint._SIZE_MODE["large"] = False
     # dimension mismatch raises
     for ta, tb in [((0, 1, 0), (0, 0, 1)), ((1, 1, 1), (0, 0, 2))]:
         n += 1
